@@ -266,6 +266,11 @@ def run_fold_case(ctx, rng, n):
 
 LEDGER_STATEMENTS = [
     ('SELECT account, sum(position) AS s GROUP BY account ORDER BY account', None),
+    # wildcards over sub-queries with different output names (and over a NULL-typed output): what one left behind is not to show in another
+    ('SELECT * FROM (SELECT account AS acc, number AS n FROM #postings WHERE number > %s)', [gen.D('10')]),
+    ('SELECT * FROM (SELECT %s AS x, %s AS y)', [3, 'three']),
+    ('SELECT * FROM (SELECT date AS d, payee, NULL AS nothing FROM #transactions)', None),
+    ('SELECT * FROM (SELECT y, x FROM (SELECT number AS x, account AS y FROM #postings WHERE currency = %s))', ['USD']),
     ('SELECT date, account, position, balance WHERE account ~ %s', ['Assets']),
     ('SELECT account, sum(position) AS s FROM OPEN ON 2019-06-01 CLOSE ON 2020-06-01 CLEAR GROUP BY account ORDER BY account', None),
     ('SELECT account, count(*) AS n FROM CLOSE ON 2020-01-01 GROUP BY 1 ORDER BY 1', None),
